@@ -444,6 +444,7 @@ type c18opObs struct {
 	lastEvMs  int // time from the last function return (or the start) to the return of the operation
 	consumed  int // chunks consumed when the operation returned
 	startAt   int // chunks consumed when the operation started
+	emitted   int // chunks the device had emitted when the operation returned
 }
 
 type c18obs struct {
@@ -633,6 +634,9 @@ func runC18case(cs c18case) c18obs {
 		}
 		settle()
 		ob.consumed = int(lg.writes.Load()) - d.Channel.Q.GetDepth()
+		dev.Mu.Lock()
+		ob.emitted = len(dev.EmittedChunks)
+		dev.Mu.Unlock()
 		o.ops = append(o.ops, ob)
 		if ob.run.outcome == "timeout" || strings.HasPrefix(ob.run.outcome, "other") {
 			break // the reader goroutine of a timed-out stage may still be polling: do not start another operation
@@ -649,7 +653,7 @@ func runC18case(cs c18case) c18obs {
 // c18arrivals rebuilds the arrival history of operation k from what was observed: the chunks in
 // emission order from the operation's first chunk on, an empty poll after chunk n for every function
 // return that left the queue empty with n chunks consumed, the delay in front of a late emission.
-func c18arrivals(o *c18obs, k int) []c18arrival {
+func c18arrivals(cs *c18case, o *c18obs, k int) []c18arrival {
 	emptiesAfter := map[int]int{}
 	for _, f := range o.fires {
 		if f.op == k && f.depth == 0 {
@@ -662,7 +666,7 @@ func c18arrivals(o *c18obs, k int) []c18arrival {
 		out = append(out, c18arrival{0, nil})
 	}
 	seenEm := map[int]bool{}
-	for ci := start; ci < len(o.chunks); ci++ {
+	for ci := start; ci < len(o.chunks) && ci < o.ops[k].emitted; ci++ {
 		ch := o.chunks[ci]
 		gap := 0
 		if o.delayedE[ch.Emission] && !seenEm[ch.Emission] {
@@ -672,6 +676,21 @@ func c18arrivals(o *c18obs, k int) []c18arrival {
 		out = append(out, c18arrival{gap, ch.Data})
 		for n := emptiesAfter[ci+1]; n > 0; n-- {
 			out = append(out, c18arrival{0, nil})
+		}
+	}
+	// a late emission that was still pending when the operation returned (it timed out first) is
+	// part of the history the device would have produced: it arrives after the delay
+	if k == len(o.ops)-1 {
+		for e := range cs.emissions {
+			if o.delayedE[e] && !seenEm[e] {
+				for j, ch := range cs.emissions[e] {
+					gap := 0
+					if j == 0 {
+						gap = c18Delay
+					}
+					out = append(out, c18arrival{gap, ch})
+				}
+			}
 		}
 	}
 	return out
@@ -782,7 +801,7 @@ func runC18(c *ctx) {
 	c18RxPool(c)
 	c18Constructor(c)
 	rxDiff(c, []string{"Channel.promptPattern"}, c.n(60, 600))
-	n := c.n(1500, 100000)
+	n := c.n(1500, 30000)
 	cases := []c18case{genC18(1, false), genC18(2, false)}
 	for i := 0; i < n; i++ {
 		cases = append(cases, genC18(c.rng.U64(), c.thorough()))
@@ -907,7 +926,7 @@ func c18round(c *ctx, cases []c18case, par int, first bool) (retry []c18case) {
 		o := &obs[i]
 		var fired []int
 		for k := range o.ops {
-			a := c18arrivals(o, k)
+			a := c18arrivals(cs, o, k)
 			rf := ref{i, k}
 			arrs[rf] = a
 			fired0s[rf] = fired
@@ -1017,8 +1036,8 @@ func c18round(c *ctx, cases []c18case, par int, first bool) (retry []c18case) {
 				break
 			}
 			if !want.same(ob.run) {
-				res.Fail("oracle", caseLine, fmt.Sprintf("op %d (input %q, timeout %d ms, callbacks %s): observed %v, the property demands %v; arrivals %s",
-					k, cs.ops[k].input, cs.ops[k].timeout, c18descCbs(cs), ob.run, want, c18descArr(arrs[rf])), sig("wrong-run:"+ob.run.outcome+"-vs-"+want.outcome))
+				res.Fail("oracle", caseLine, fmt.Sprintf("op %d (input %q, timeout %d ms, callbacks %s): observed %v, the property demands %v; arrivals %s; error text %q after %d ms",
+					k, cs.ops[k].input, cs.ops[k].timeout, c18descCbs(cs), ob.run, want, c18descArr(arrs[rf]), ob.errText, ob.elapsedMs), sig("wrong-run:"+ob.run.outcome+"-vs-"+want.outcome))
 				bad = true
 				break
 			}
